@@ -164,3 +164,15 @@ MUTANTS = [
     {"id": "C04-benign-kitty-rename", "prop": "C04", "benign": True,
      "edits": [(D, "        code @ 57376..=57398 => KeyName::F(code - 57376 + 13),", "        fkey @ 57376..=57398 => KeyName::F(fkey - 57376 + 13),")]},
 ]
+
+
+MUTANTS += [
+    {"id": "C04-color-16bit-rescaled", "prop": "C04", "expect": "T8-COLOR-COMPONENT",
+     "edits": [("src/decoder.rs", "            4 => value / 256,", "            4 => value / 257,")]},
+    {"id": "C04-color-12bit-low-byte", "prop": "C04", "expect": "T8-COLOR-COMPONENT",
+     "edits": [("src/decoder.rs", "            3 => value / 16,", "            3 => value % 256,")]},
+    {"id": "C04-color-1digit-shift", "prop": "C04", "expect": "T8-COLOR-COMPONENT",
+     "edits": [("src/decoder.rs", "            1 => value * 17,", "            1 => value * 16,")]},
+    {"id": "C04-benign-color-shift", "prop": "C04", "benign": True,
+     "edits": [("src/decoder.rs", "            4 => value / 256,", "            4 => value >> 8,")]},
+]
